@@ -25,12 +25,29 @@ with the stated precedence NOT > AND > OR > {ANDNOT, ANDMAYBE, REQUIRE} >
 implicit grouping.  V has one document for every combination of per-field
 contents, so agreement on V is agreement on every index over that vocabulary.
 SimpleParser / DisMaxParser are checked on their own small language (+ - and
-phrases).
+phrases).  The leaf constructs include those of the optional plugins, each
+evaluated in the configuration that ships the plugin: all six comparison
+spellings of the GtLtPlugin (< <= =< > >= =>) on a numeric, a text and a date
+field, FuzzyTermPlugin (word~ word~2 word~2/1), RegexPlugin (r"..."),
+FieldAliasPlugin.
+
+Part B, calendar periods.  A date typed to a period (year, month, day, hour,
+minute, second) reads as the whole period, also as a range bound.  Every kind
+of period end is typed - all twelve months of a leap year, February of a
+common year, of a century year that is not and of one that is a leap year,
+the last day of a month / year, the last hour, minute and second - as a term,
+as the bound of open and closed [ ] and { } ranges (periods of equal and of
+different precision), with the six GtLt comparisons, and with month names
+through the DateParserPlugin; alone, negated and combined with a word.  The
+corpus holds for every typed period its first and last instant and the
+instants one microsecond before and after it (plus mid-month instants).  For
+an exclusive bound on a period both readings (the whole typed period is left
+out / only its extreme instant is) are accepted, consistently over the corpus.
 
 Bounds.  quick: <=3 tokens over the full 42-token alphabet, 4 tokens over a
 seed-rotated 17-token alphabet, 13k range templates; trees with 1 leaf over
-all ~50 leaf constructs, 2 leaves over 14, 3 leaves over 3, 4 leaves over 4
-independent terms.  thorough: 4 tokens over 28 tokens, 5 tokens over 11; 2
+all ~80 leaf constructs, 2 leaves over 16, 3 leaves over 3, 4 leaves over 4
+independent terms; ~360 period constructs x 4 contexts.  thorough: 4 tokens over 28 tokens, 5 tokens over 11; 2
 leaves over 20, 3 leaves over 6, 4 leaves with every NOT pattern and three
 leaf orders.
 """
@@ -477,8 +494,11 @@ def leaves(seed):
     u, v, z, c = vocab(seed)
     L = []
 
-    def add(kind, text, ast):
-        L.append({"kind": kind, "text": text, "ast": ast, "free": ast[1] is None})
+    def add(kind, text, ast, cfgs=None, alt=None):
+        # cfgs: the configurations whose language has the construct (None =
+        # all); alt: a second admissible reading of the construct
+        L.append({"kind": kind, "text": text, "ast": ast, "free": ast[1] is None,
+                  "cfgs": cfgs, "alt": alt})
     add("word", u, ["term", None, u])
     add("word", v, ["term", None, v])
     add("fword", "b:" + u, ["term", "b", u])
@@ -534,7 +554,48 @@ def leaves(seed):
     add("drange_excl", "d:{200102 TO 200111]", ["drange", "d", lo, hi, True, False])
     add("drange_open", "d:[200103 TO]", ["drange", "d", iso(2001, 3, 1), None, False, False])
     add("drange_open", "d:{TO 200110}", ["drange", "d", None, iso(2001, 10, 31, 23, 59, 59, 999999), False, True])
+    # constructs of the optional plugins, in the configuration that ships them
+    # ("plugins": FuzzyTermPlugin, RegexPlugin, GtLtPlugin, FieldAliasPlugin)
+    PL = ("plugins",)
+    for rel in GTLT_RELS:
+        # GtLtPlugin: "a:>100 b:<=z" reads as "a:{100 to] b:[to z]"; it
+        # "recognizes >, <, >=, <=, => and =<"
+        add("gtlt_num" + rel, "n:%s2" % rel, gtlt_range("nrange", "n", 2, 2, rel), PL)
+        add("gtlt_text" + rel, "b:%s%s" % (rel, v if "<" in rel else u),
+            gtlt_range("trange", "b", v if "<" in rel else u, v if "<" in rel else u, rel), PL)
+        # d holds the first instant of 2001-02 and the last instant of 2001-11
+        # (see above): both readings of an exclusive bound agree there
+        if "<" in rel:
+            add("gtlt_date" + rel, "d:%s200111" % rel, gtlt_range("drange", "d", iso(2001, 11, 1), hi, rel), PL)
+        else:
+            add("gtlt_date" + rel, "d:%s200102" % rel,
+                gtlt_range("drange", "d", lo, iso(2001, 2, 28, 23, 59, 59, 999999), rel), PL)
+    add("fuzzy", u + "~", ["fuzzy", None, u, 1, 0], PL)
+    add("fuzzy", u + "~2", ["fuzzy", None, u, 2, 0], PL)
+    add("fuzzy", u + "~2/1", ["fuzzy", None, u, 2, 1], PL)
+    add("fuzzy", "b:%s~1/1" % v, ["fuzzy", "b", v, 1, 1], PL)
+    add("regex", 'r"%s."' % c, ["regex", None, c + "."], PL)
+    add("regex", 'b:r"%s"' % u, ["regex", "b", u], PL)
+    add("alias", "alias:" + u, ["term", "a", u], PL)
+    add("alias", 'alias:"%s %s"' % (u, v), ["phrase", "a", [u, v], 1], PL)
     return L
+
+
+GTLT_RELS = ("<", "<=", "=<", ">", ">=", "=>")
+
+
+def gtlt_range(kind, field, first, last, rel):
+    """The documented reading of field:<rel>value as a one-sided range.  first
+    / last: first and last point of the typed value (the same unless the value
+    is a date typed to a period); an exclusive bound is written for the reading
+    'leaves the whole typed period out'."""
+    if rel == "<":
+        return [kind, field, None, first, False, True]
+    if rel in ("<=", "=<"):
+        return [kind, field, None, last, False, False]
+    if rel == ">":
+        return [kind, field, last, None, True, False]
+    return [kind, field, first, None, False, False]
 
 
 def leaf_index(L, text):
@@ -550,6 +611,10 @@ def leaf_sets(seed, tier):
     med = [u, v, "b:" + u, "'%s'" % u, '"%s %s"' % (u, v), '"%s %s"~2' % (u, v),
            'b:"%s %s"' % (u, v), "[%s TO %s}" % (u, v), "{%s TO]" % v, c + "*", "?a",
            u + "^2", "n:[1 TO 3}", "d:{200102 TO 200111]"]
+    # two of the six comparison spellings (rotated by the seed; all six are
+    # single leaves of e1) take part in the two-leaf trees
+    r1, r2 = GTLT_RELS[(2 + seed) % 6], GTLT_RELS[(5 + seed) % 6]
+    med = med + ["n:%s2" % r1, "b:%s%s" % (r2, v if "<" in r2 else u)]
     small = [u, v, "b:" + u, '"%s %s"~2' % (v, u), "[%s TO]" % v]
     if tier == "quick":
         small = small[:3]
@@ -624,11 +689,36 @@ def render(a, mode, L):
     return s
 
 
-def resolve(a, cfg, L, fctx=None):
-    """The documented reading of the tree, as a mc.qast tree."""
+def tree_leaves(a):
+    if a[0] == "leaf":
+        return [a[1]]
+    out = []
+    for c in kids(a):
+        out.extend(tree_leaves(c))
+    return out
+
+
+def cfg_allowed(a, cfg, L):
+    """Is every construct of the tree part of the language of cfg?"""
+    for i in tree_leaves(a):
+        cs = L[i].get("cfgs")
+        if cs is not None and cfg not in cs:
+            return False
+    return True
+
+
+def has_alt(a, L):
+    return any(L[i].get("alt") is not None for i in tree_leaves(a))
+
+
+def resolve(a, cfg, L, fctx=None, alt=False):
+    """The documented reading of the tree, as a mc.qast tree (alt: with the
+    second admissible reading of the leaves that have one)."""
     k = a[0]
     if k == "leaf":
         base = L[a[1]]["ast"]
+        if alt and L[a[1]].get("alt") is not None:
+            base = L[a[1]]["alt"]
         if base[1] is not None:
             return base
         if fctx is not None:
@@ -637,12 +727,12 @@ def resolve(a, cfg, L, fctx=None):
             return ["or", [[base[0], f] + base[2:] for f in ("a", "b")]]
         return [base[0], "a"] + base[2:]
     if k == "fgrp":
-        return resolve(a[2], cfg, L, a[1])
+        return resolve(a[2], cfg, L, a[1], alt)
     if k == "bgrp":
-        return resolve(a[1], cfg, L, fctx)
+        return resolve(a[1], cfg, L, fctx, alt)
     if k == "not":
-        return ["not", resolve(a[1], cfg, L, fctx)]
-    x, y = resolve(a[1], cfg, L, fctx), resolve(a[2], cfg, L, fctx)
+        return ["not", resolve(a[1], cfg, L, fctx, alt)]
+    x, y = resolve(a[1], cfg, L, fctx, alt), resolve(a[2], cfg, L, fctx, alt)
     if k == "imp":
         return ["or" if cfg == "or" else "and", [x, y]]
     if k in ("and", "or"):
@@ -688,6 +778,11 @@ def make_parser_b(cfg, sc):
         return qparser.SimpleParser("a", sc)
     if cfg == "dismax":
         return qparser.DisMaxParser({"a": 1.0, "b": 0.5}, sc)
+    if cfg == "dates":
+        from whoosh.qparser.dateparse import DateParserPlugin
+        p = qparser.QueryParser("a", sc)
+        p.add_plugin(DateParserPlugin(basedate=datetime.datetime(2010, 6, 15, 12, 0, 0)))
+        return p
     raise ValueError(cfg)
 
 
@@ -710,7 +805,7 @@ def corpus_v(B, fields_):
     if got is not None:
         return got
     from whoosh.filedb.filestore import RamStorage
-    dom = domains(B["seed"])
+    dom = B.get("domains") or domains(B["seed"])
     names = [f for f in ("a", "b", "n", "d") if f in key]
     docs = []
     for combo in itertools.product(*[range(len(dom[f])) for f in names]):
@@ -742,9 +837,10 @@ def corpus_v(B, fields_):
     return got
 
 
-def eval_text(B, cfg, text, ref_ast):
+def eval_text(B, cfg, text, ref_ast, alt_ast=None):
     """(kind, detail, nref, ndocs): kind None when the parsed text selects the
-    reference set on V."""
+    reference set on V (or, when the construct has a second admissible
+    reading, the set of that reading)."""
     s, keys, model = corpus_v(B, ast_fields(ref_ast))
     ref = qast.ref_eval(ref_ast, model)
     arm(20.0)
@@ -764,6 +860,8 @@ def eval_text(B, cfg, text, ref_ast):
         return ("duplicate-docs", "%r -> %r returned a document twice" % (text, q), len(ref), len(keys))
     if got == ref:
         return (None, None, len(ref), len(keys))
+    if alt_ast is not None and got == qast.ref_eval(alt_ast, model):
+        return (None, None, len(ref), len(keys))
     kind = "extra" if got - ref else "missing"
     if got - ref and ref - got:
         kind = "both"
@@ -781,7 +879,8 @@ def eval_ast(B, cfg, a, mode):
     memo = B["memo"]
     r = memo.get((cfg, text))
     if r is None:
-        r = memo[(cfg, text)] = eval_text(B, cfg, text, resolve(a, cfg, L))
+        alt = resolve(a, cfg, L, alt=True) if has_alt(a, L) else None
+        r = memo[(cfg, text)] = eval_text(B, cfg, text, resolve(a, cfg, L), alt)
     return r
 
 
@@ -976,23 +1075,37 @@ def modes_of(fam):
 
 def task_b(t, acc, seed):
     _, _, fam, tier, nchunks, chunk = t
-    B = ctx_b(seed)
+    if fam == "periods":
+        B = ctx_p(seed, tier)
+        run_trees(B, gen_periods(B, nchunks, chunk), CFGS_P, MODES[:1], acc, seed, "periods")
+    else:
+        B = ctx_b(seed)
+        run_trees(B, gen_family(fam, seed, tier, nchunks, chunk), CFGS_B, modes_of(fam), acc, seed, "meaning")
+
+
+def run_trees(B, trees, cfgs, modes, acc, seed, part):
     L = B["L"]
     seen = set()
     B["memo"].clear()
     n = 0
-    for a in gen_family(fam, seed, tier, nchunks, chunk):
+    for a in trees:
         acc.count("meaning_trees")
-        for mode in modes_of(fam):
+        for mode in modes:
             text = render(a, mode, L)
             if text in seen:
                 continue
             seen.add(text)
             n += 1
             acc.count("meaning_texts")
-            for cfg in CFGS_B:
+            for cfg in cfgs:
+                if not cfg_allowed(a, cfg, L):
+                    continue
                 acc.count("evaluations")
                 acc.count("meaning_evaluations")
+                if part == "periods":
+                    acc.count("period_evaluations")
+                elif cfg == "plugins" and any(L[i]["cfgs"] for i in tree_leaves(a)):
+                    acc.count("meaning_plugin_construct_evaluations")
                 kind, detail, nref, nv = eval_ast(B, cfg, a, mode)
                 if 0 < nref < nv:
                     acc.count("distinct_nontrivial")
@@ -1005,13 +1118,172 @@ def task_b(t, acc, seed):
                     raise core.HarnessError("unstable outcome for %r" % (cu,))
                 ck, cdetail, _, _ = eval_ast(B, cfg, cu, cm)
                 sig = "meaning|%s|%s|%s|cfg=%s" % (skeleton_abs(cu, L, simple_leaves(B)), cm, ck, cfg)
-                acc.violation(sig, {"part": "meaning", "cfg": cfg, "ast": cu, "mode": cm,
-                                    "text": render(cu, cm, L), "seed": seed,
+                acc.violation(sig, {"part": part, "cfg": cfg, "ast": cu, "mode": cm,
+                                    "text": render(cu, cm, L), "seed": seed, "tier": B.get("tier"),
                                     "found_in": text},
                               "[%s] %s" % (cfg, cdetail))
             if n % 499 == 5:
-                acc.sample({"part": "meaning", "text": text,
+                acc.sample({"part": part, "text": text,
                             "reading": qast.shape(resolve(a, "default", L))}, maxn=1)
+
+
+# -- calendar periods -------------------------------------------------------
+#
+# A date typed to a period (year, month, day, hour, minute, second) reads as the
+# whole period (docs/dates.rst: "date:2005" finds all datetimes in 2005,
+# "date:20050624" all datetimes on that day, "[20050101 to 20100602]" from the
+# first to the last of them).  Where a period ends depends on the calendar: the
+# family types every kind of month end (28/29/30/31 days; February of a leap
+# year, of a common year, of a century that is not and of one that is a leap
+# year; December -> next year) and the last day/hour/minute/second, and the
+# corpus holds, for every typed period, its first and last instant and the
+# instants one microsecond outside it.
+
+CFGS_P = CFGS_B + ["dates"]
+MONTHS = ["jan", "feb", "mar", "apr", "may", "jun", "jul", "aug", "sep", "oct", "nov", "dec"]
+
+
+def period_years(seed):
+    """(leap year, common year, century common year, 400-year leap year)"""
+    return [(2004, 2001, 1900, 2000), (2008, 2003, 2100, 2400), (1996, 1999, 1800, 1600)][seed % 3]
+
+
+def period_list(seed, tier):
+    yl, yc, ycent, y400 = period_years(seed)
+    P = [(yl,), (yc,)]
+    P += [(yl, m) for m in range(1, 13)]
+    P += [(yc, 2), (ycent, 2), (y400, 2)]
+    if tier != "quick":
+        P += [(yc, m) for m in (1, 3, 4, 12)] + [(ycent,), (y400,)]
+    P += [(yl, 2, 28), (yl, 2, 29), (yl, 3, 1), (yl, 4, 30), (yl, 12, 31), (yc, 2, 28)]
+    P += [(yl, 2, 29, 23), (yl, 2, 29, 23, 59), (yl, 2, 29, 23, 59, 59)]
+    return P
+
+
+def period_bounds(p):
+    """(first instant, last instant) of the period with the given components."""
+    dt = datetime.datetime
+    first = dt(*(list(p) + [1, 1, 0, 0, 0][len(p) - 1:]))
+    if len(p) == 1:
+        nxt = dt(p[0] + 1, 1, 1)
+    elif len(p) == 2:
+        nxt = dt(p[0] + (p[1] == 12), p[1] % 12 + 1, 1)
+    else:
+        step = {3: datetime.timedelta(days=1), 4: datetime.timedelta(hours=1),
+                5: datetime.timedelta(minutes=1), 6: datetime.timedelta(seconds=1)}[len(p)]
+        nxt = first + step
+    return first, nxt - datetime.timedelta(microseconds=1)
+
+
+def period_text(p):
+    return "%04d" % p[0] + "".join("%02d" % x for x in p[1:])
+
+
+PRECISION = ["", "year", "month", "day", "hour", "minute", "second"]
+
+
+def period_leaves(seed, tier):
+    """Leaf constructs of the period family (after the four plain terms that
+    the shrinker needs)."""
+    u, v, z, c = vocab(seed)
+    L = []
+
+    def add(kind, text, ast, cfgs=None, alt=None):
+        L.append({"kind": kind, "text": text, "ast": ast, "free": ast[1] is None,
+                  "cfgs": cfgs, "alt": alt})
+    add("word", u, ["term", None, u])
+    add("word", v, ["term", None, v])
+    add("fword", "b:" + u, ["term", "b", u])
+    add("fword", "b:" + v, ["term", "b", v])
+    f = qast.fmt_dt
+    NOD = ("default", "or", "multi", "plugins")      # DateParserPlugin: only [ ] ranges are documented
+    PL = ("plugins",)
+    P = period_list(seed, tier)
+    for p in P:
+        first, last = period_bounds(p)
+        t, pr = period_text(p), PRECISION[len(p)]
+        add("date_term/" + pr, "d:" + t, ["drange", "d", f(first), f(last), False, False])
+        if len(p) == 2:
+            add("date_term_named/" + pr, "d:'%s %d'" % (MONTHS[p[1] - 1], p[0]),
+                ["drange", "d", f(first), f(last), False, False], ("dates",))
+        # open-ended ranges: docs/dates.rst advises against them with the
+        # DateParserPlugin, the built-in syntax has them
+        add("date_from/" + pr, "d:[%s TO]" % t, ["drange", "d", f(first), None, False, False], NOD)
+        add("date_upto/" + pr, "d:[TO %s]" % t, ["drange", "d", None, f(last), False, False], NOD)
+        # an exclusive bound either leaves the whole typed period out or only
+        # its extreme instant: both readings are admitted (consistently)
+        add("date_after/" + pr, "d:{%s TO]" % t, ["drange", "d", f(last), None, True, False], NOD,
+            alt=["drange", "d", f(first), None, True, False])
+        add("date_before/" + pr, "d:[TO %s}" % t, ["drange", "d", None, f(first), False, True], NOD,
+            alt=["drange", "d", None, f(last), False, True])
+        for rel in GTLT_RELS:
+            alt = None
+            if rel == ">":
+                alt = ["drange", "d", f(first), None, True, False]
+            elif rel == "<":
+                alt = ["drange", "d", None, f(last), False, True]
+            add("date_gtlt%s/%s" % (rel, pr), "d:%s%s" % (rel, t),
+                gtlt_range("drange", "d", f(first), f(last), rel), PL, alt=alt)
+    # closed ranges between two periods of possibly different precision
+    yl = period_years(seed)[0]
+    S = [(yl, 1), (yl, 2), (yl, 3), (yl, 12), (yl, 2, 29), (yl,)]
+    for p in S:
+        for q in S:
+            fp_, lp = period_bounds(p)
+            fq, lq = period_bounds(q)
+            if fp_ > lq:
+                continue
+            tp, tq = period_text(p), period_text(q)
+            kind = "%s-%s" % (PRECISION[len(p)], PRECISION[len(q)])
+            # (the DateParserPlugin completes the coarser bound of a range from
+            # the finer one - its natural-language feature - so only ranges
+            # between periods of the same precision are given to it)
+            add("date_range/" + kind, "d:[%s TO %s]" % (tp, tq), ["drange", "d", f(fp_), f(lq), False, False],
+                None if len(p) == len(q) else NOD)
+            add("date_range_excl/" + kind, "d:{%s TO %s}" % (tp, tq), ["drange", "d", f(lp), f(fq), True, True],
+                NOD, alt=["drange", "d", f(fp_), f(lq), True, True])
+            if len(p) == 2 and len(q) == 2:
+                add("date_range_named/" + kind, "d:[%s %d to %s %d]" % (MONTHS[p[1] - 1], p[0], MONTHS[q[1] - 1], q[0]),
+                    ["drange", "d", f(fp_), f(lq), False, False], ("dates",))
+    return L
+
+
+def period_instants(seed, tier):
+    us = datetime.timedelta(microseconds=1)
+    out = set()
+    for p in period_list(seed, tier):
+        first, last = period_bounds(p)
+        out.update([first - us, first, last, last + us])
+        if len(p) == 2:
+            out.add(first + datetime.timedelta(days=14, hours=12))
+    return sorted(out)
+
+
+def ctx_p(seed, tier):
+    B = _W.get(("P", seed, tier))
+    if B is None:
+        sc = b_schema()
+        u, v, z, c = vocab(seed)
+        B = {"schema": sc, "L": period_leaves(seed, tier), "seed": seed, "tier": tier, "V": {}, "memo": {},
+             "domains": {"a": [[], [u]], "b": [[]], "n": [None],
+                         "d": [None] + period_instants(seed, tier)},
+             "parsers": dict((c_, make_parser_b(c_, sc)) for c_ in CFGS_P)}
+        _W[("P", seed, tier)] = B
+    return B
+
+
+def gen_periods(B, n=1, ch=0):
+    """Every period construct alone, negated, and combined with a word by the
+    implicit grouping and by OR."""
+    L = B["L"]
+    for i in range(4, len(L)):
+        if i % n != ch:
+            continue
+        x = lf(i)
+        yield x
+        yield ["not", x]
+        yield ["imp", lf(0), x]
+        yield ["or", x, lf(0)]
 
 
 # -- + / - language of SimpleParser and DisMaxParser -------------------------
@@ -1131,7 +1403,9 @@ def plan(tier, seed):
                  ("e4", 24 if tier == "quick" else 216)):
         fam[f] = [(seed, "meaning", f, tier, n, c) for c in range(n)]
     # simplest first, the two parts interleaved
-    tasks = (small_a + [(seed, "meaning", "e1", tier, 1, 0), (seed, "plusminus")] + l3
+    nper = 6
+    periods = [(seed, "meaning", "periods", tier, nper, c) for c in range(nper)]
+    tasks = (small_a + [(seed, "meaning", "e1", tier, 1, 0), (seed, "plusminus")] + periods + l3
              + ranges + fam["e2"] + fam["e3"] + big + fam["e4"])
     return tasks, info
 
@@ -1157,6 +1431,10 @@ def run(ctx):
     ctx.extra["parser_configurations_meaning"] = CFGS_B + CFGS_PM
     Ls = leaves(seed)
     ctx.extra["meaning_leaf_constructs"] = [l["text"] for l in Ls]
+    ctx.extra["period_years"] = list(period_years(seed))
+    ctx.extra["periods_typed"] = [period_text(p) for p in period_list(seed, ctx.tier)]
+    ctx.extra["period_constructs"] = len(period_leaves(seed, ctx.tier)) - 4
+    ctx.extra["period_corpus_instants"] = len(period_instants(seed, ctx.tier))
     ctx.rule = (
         "totality: every concatenation of <=3 tokens of the full %d-token alphabet, every 4-token "
         "(thorough: also 5-token) concatenation over a seed-rotated reduced alphabet, every range "
@@ -1168,8 +1446,18 @@ def run(ctx):
         "meaning: every expression tree with 1-2 leaves over the listed leaf constructs / 3 leaves "
         "over a small leaf set / 4 leaves over four independent terms, operators AND OR NOT ANDNOT "
         "ANDMAYBE REQUIRE implicit-grouping, field groups and boosted groups, rendered in three "
-        "parenthesisation modes (duplicate texts dropped) x 4 configurations, plus every +/- marked "
-        "sequence of <=3 items for SimpleParser/DisMaxParser; a case is non-trivial when the "
+        "parenthesisation modes (duplicate texts dropped) x 4 configurations (the constructs of the "
+        "optional plugins - six GtLt comparison spellings on numeric/text/date fields, fuzzy terms, "
+        "regex, field alias - only in the configuration that ships them), plus every +/- marked "
+        "sequence of <=3 items for SimpleParser/DisMaxParser; calendar periods: every listed period "
+        "(years; all 12 months of a leap year, February of a common / century / 400-year year; last "
+        "days; last hour, minute, second) typed as a date term, as bound of [p TO], [TO p], {p TO], "
+        "[TO p}, with the six GtLt comparisons, as 'mon YYYY' for the DateParserPlugin, and every "
+        "non-inverted closed range [p TO q] / {p TO q} over 6 periods of mixed precision, each alone, "
+        "under NOT, and joined with a word by implicit grouping and by OR x 5 configurations (default, "
+        "OrGroup, Multifield, plugins, DateParserPlugin - the latter only for [ ] ranges between "
+        "periods of equal precision and for terms), on a corpus holding the first and last instant "
+        "of every typed period and the instants 1 microsecond outside it; a case is non-trivial when the "
         "reference set on V is neither empty nor all of V; all cases enumerated without repetition"
         % len(FULL))
     ctx.assumptions = [
@@ -1179,6 +1467,13 @@ def run(ctx):
         "is read left-associatively (docs/parsing.rst)",
         "date ranges: start = first instant, end = last instant of the typed period (docs/dates.rst); V only "
         "contains instants for which an exclusive bound has a single possible reading",
+        "calendar-period family: for an exclusive bound typed to a period two readings are admitted (the "
+        "whole typed period is left out; only its first/last instant is) - the parsed query must select "
+        "exactly the set of one of them on the whole corpus",
+        "with the DateParserPlugin only what docs/dates.rst shows is used: terms, 'mon YYYY', closed [ ] ranges "
+        "between periods of equal precision (it completes a coarser bound from the finer one, ignores { })",
+        "GtLtPlugin: field:>x field:<x field:>=x field:<=x field:=>x field:=<x read as {x TO], [TO x}, [x TO], "
+        "[TO x], [x TO], [TO x] (plugin docstring)",
         "V is built per query over the text fields a, b plus exactly the typed fields the expression mentions",
         "searching with a query on an index whose schema lacks the field is taken as covered by "
         "'any index' (Term and Phrase queries already tolerate it); such violations carry search@foreign-index",
@@ -1188,6 +1483,7 @@ def run(ctx):
     c = ctx.counters
     for key, least in (("parse_raised_QueryParserError", 0), ("parse_returned_error_query", 100),
                        ("search_raised_QueryError", 10), ("meaning_nontrivial", 1000),
+                       ("period_evaluations", 1000), ("meaning_plugin_construct_evaluations", 100),
                        ("totality_nontrivial_strings", 1000)):
         if c.get(key, 0) < least:
             raise core.HarnessError("vacuous: counter %s = %d" % (key, c.get(key, 0)))
@@ -1203,14 +1499,20 @@ def replay(case):
         return {"ok": ok, "cfg": case["cfg"], "text": case["text"],
                 "what": "ok" if ok else o["detail"],
                 "sig": None if ok else sig_a(case["cfg"], o["viol"])}
-    B = ctx_b(case.get("seed", 0))
-    if part == "meaning":
+    alt = None
+    if part == "periods":
+        B = ctx_p(case.get("seed", 0), case.get("tier") or "quick")
+    else:
+        B = ctx_b(case.get("seed", 0))
+    if part in ("meaning", "periods"):
         L = B["L"]
         text = render(case["ast"], case["mode"], L)
         ref = resolve(case["ast"], case["cfg"], L)
+        if has_alt(case["ast"], L):
+            alt = resolve(case["ast"], case["cfg"], L, alt=True)
     else:
         text, ref = case["text"], case["ref"]
-    kind, detail, nref, nv = eval_text(B, case["cfg"], text, ref)
+    kind, detail, nref, nv = eval_text(B, case["cfg"], text, ref, alt)
     return {"ok": kind is None, "cfg": case["cfg"], "text": text, "kind": kind,
             "reference_reading": qast.shape(ref), "reference_size": nref, "corpus_size": nv,
             "what": "ok" if kind is None else detail}
